@@ -19,6 +19,9 @@ SUBMISSIONS = {
     "attrassign": "def add(a, b):\n    return a + b\nname = ' ada '.strip()\nname.upper = 'ADA'\nnums = [1].copy()\nnums.append = 3\nprint('hello')\nprint(add(1, 1))\n",
     "attrlit": ("def add(a, b):\n    return a + b\nname = 'ada'\nname.upper = 'ADA'\npair = (1, 2)\npair.count = 3\nn = 5\nn.bit_length = 2\n"
                 "print('hello')\nprint(add(1, 1))\n"),
+    # a registered module reached through a dotted import, with the beginner mistake `plt.title = ...`
+    "pltassign": "def add(a, b):\n    return a + b\nimport matplotlib.pyplot as plt\nplt.title = 'My Plot'\nplt.plot([1, 2])\nplt.show()\nprint('hello')\nprint(add(1, 1))\n",
+    "pltcall": "def add(a, b):\n    return a + b\nimport matplotlib.pyplot as plt\nplt.title('My Plot')\nplt.plot([1, 2])\nplt.show()\nprint('hello')\nprint(add(1, 1))\n",
     "methodcall": ("def add(a, b):\n    return a + b\nname = ' ada '.strip()\nprint(name.upper())\nword = 'x'\nprint(word.upper())\n"
                    "pair = (1, 2)\nprint(pair.count(1))\nnums = [1].copy()\nnums.append(2)\nprint('hello')\nprint(add(1, 1))\n"),
 }
